@@ -6,7 +6,7 @@
    later in the list, a timer may run long after it woke up (also after it was cancelled meanwhile).
    `Inv` (Proofs.v) holds in every reachable state (C10_invariant).  Examples.v (imported so that it is
    re-checked) replays the defects of the code before the fix on variant Legacy. *)
-From CF Require Import Common.Bytes C10.Model C10.Proofs C10.Examples.
+From CF Require Import Common.Bytes C10.Model C10.Proofs C10.Proofs_b C10.Examples.
 Open Scope Z_scope.
 
 (* Every reachable state: patterns are distinct keys; each pending pattern has a live (armed or
@@ -54,6 +54,19 @@ Theorem C10_no_retry_after_answer : forall evs s r, Inv s -> ~ pending s r ->
   Forall (fun e => ~ is_send_of r e) evs -> Forall (fun o => ~ tx_of r o) (snd (run Fixed s evs)).
 Proof. exact no_tx_unless_pending. Qed.
 Print Assumptions C10_no_retry_after_answer.
+
+(* ... in closed form (request ids on the Send events distinct): after ANY history evs1, when a packet
+   arrives and the longest pending pattern that is a prefix of header+data belongs to request r, then
+   r is not transmitted during ANY continuation evs2 (timers that already woke up, re-sent patterns,
+   close/reopen, ...). *)
+Theorem C10_answered_never_retransmitted : forall evs1 hdr data evs2 i t,
+  NoDup (rids_of (evs1 ++ Recv hdr data :: evs2)) ->
+  let s := fst (run Fixed init evs1) in
+  let best := longest_match (hdr_attr hdr :: data) (pats s) [] in
+  link s <> None -> best <> [] -> lookup best (pats s) = Some i -> nth_error (timers s) i = Some t ->
+  Forall (fun o => ~ tx_of (t_rid t) o) (snd (run Fixed (fst (step Fixed s (Recv hdr data))) evs2)).
+Proof. exact answered_never_retransmitted. Qed.
+Print Assumptions C10_answered_never_retransmitted.
 
 (* An arriving packet removes exactly the longest pending pattern that is a prefix of header+data and
    cancels that pattern's timer; no other pattern or timer changes; nothing is transmitted. *)
